@@ -1,7 +1,7 @@
 """C05 — fetch, clone and push transfer a complete, byte-identical object closure.
 
 Model: lean/DulwichModel/Model/{Graph,Missing,Negotiate}.lean; theorems: Props/C05.lean.
-Tie: translate() regenerates Gen/Graph.lean (structure of MissingObjectFinder.__next__,
+Tie: translate() regenerates Gen/ObjGraph.lean (structure of MissingObjectFinder.__next__,
 _collect_filetree_revs, _collect_ancestors, S_IFGITLINK, want validation) from the source;
 run() drives
   * mof.*      random abstract object graphs -> Lean model  vs  the real MissingObjectFinder on the same
@@ -209,4 +209,419 @@ def wantCheckedAgainstAdvertised : Bool := {_b(want_checked)}
 def maxInVain : Nat := {max_in_vain}
 end Dulwich.Gen
 """
-    return {"Graph": src}
+    return {"ObjGraph": src}
+
+
+# ------------------------------------------------------------------------------------------------
+# abstract object graphs
+
+M_FILE, M_EXEC, M_LINK, M_DIR, M_GITLINK = 0o100644, 0o100755, 0o120000, 0o040000, 0o160000
+
+
+class Graph:
+    """Abstract history: objs[id] = ("blob",) | ("tree", [(mode, id)]) | ("commit", tree, [parents]) |
+    ("tag", target).  Ids are assigned in creation order, every reference (except a gitlink) points to a
+    smaller id — exactly the acyclicity content addressing gives real objects.  `absent` ids name objects
+    no store holds (gitlink targets in other repositories, haves the sender has never seen)."""
+
+    def __init__(self):
+        self.objs: dict[int, tuple] = {}
+        self.next_id = 0
+        self.absent: set[int] = set()
+
+    def add(self, o) -> int:
+        i = self.next_id
+        self.next_id += 1
+        self.objs[i] = o
+        return i
+
+    def new_absent(self) -> int:
+        i = self.next_id
+        self.next_id += 1
+        self.absent.add(i)
+        return i
+
+    def ids(self, typ):
+        return [i for i, o in self.objs.items() if o[0] == typ]
+
+    def children(self, i, present=None):
+        o = self.objs.get(i)
+        if o is None or (present is not None and i not in present):
+            return []
+        if o[0] == "commit":
+            return [o[1]] + list(o[2])
+        if o[0] == "tree":
+            return [c for m, c in o[1] if m != M_GITLINK]
+        if o[0] == "tag":
+            return [o[1]]
+        return []
+
+    def closure(self, roots, present=None, shallow=()):
+        """Names reachable from roots (gitlinks not followed; parents of `shallow` commits not followed);
+        `present` restricts which objects can be opened.  Independent of the Lean model on purpose."""
+        seen, todo = set(), list(roots)
+        while todo:
+            x = todo.pop()
+            if x in seen:
+                continue
+            seen.add(x)
+            o = self.objs.get(x)
+            if o is None or (present is not None and x not in present):
+                continue
+            if o[0] == "commit":
+                todo.append(o[1])
+                if x not in shallow:
+                    todo.extend(o[2])
+            else:
+                todo.extend(self.children(x))
+        return seen
+
+    def peel(self, i):
+        while i in self.objs and self.objs[i][0] == "tag":
+            i = self.objs[i][1]
+        return i
+
+    def tokens(self, present=None):
+        out = []
+        for i, o in sorted(self.objs.items()):
+            if present is not None and i not in present:
+                continue
+            if o[0] == "blob":
+                out.append(f"B{i}")
+            elif o[0] == "tree":
+                out.append(f"T{i}:" + (",".join(f"{m}.{c}" for m, c in o[1]) or "-"))
+            elif o[0] == "commit":
+                out.append(f"C{i}:{o[1]}:" + ",".join(str(p) for p in o[2]))
+            else:
+                out.append(f"G{i}:{o[1]}")
+        return out
+
+    def to_json(self):
+        return {"objs": {str(i): list(o) for i, o in self.objs.items()}, "absent": sorted(self.absent),
+                "next_id": self.next_id}
+
+    @classmethod
+    def from_json(cls, d):
+        g = cls()
+        for k, o in d["objs"].items():
+            if o[0] == "tree":
+                g.objs[int(k)] = ("tree", [tuple(e) for e in o[1]])
+            elif o[0] == "commit":
+                g.objs[int(k)] = ("commit", o[1], list(o[2]))
+            elif o[0] == "tag":
+                g.objs[int(k)] = ("tag", o[1])
+            else:
+                g.objs[int(k)] = ("blob",)
+        g.absent = set(d.get("absent", []))
+        g.next_id = d.get("next_id", max(list(g.objs) + list(g.absent) + [-1]) + 1)
+        return g
+
+
+def ids_arg(prefix, ids):
+    return prefix + ":" + (",".join(str(i) for i in sorted(ids)) or "-")
+
+
+def gen_graph(rng, size=None) -> Graph:
+    """Random history of 5-60 objects: linear runs, merges (incl. octopus), criss-cross merges, several
+    roots, trees sharing subtrees and blobs, commits re-using a parent's root tree, annotated tags of
+    commits / trees / blobs / tags, gitlinks to commits inside and outside the graph."""
+    g = Graph()
+    n = size or rng.choice([5, 8, 12, 20, 30, 45, 60])
+    trees_seen = set()
+
+    def new_blob():
+        return g.add(("blob",))
+
+    def new_tree(depth_ok=True):
+        blobs, trees, commits = g.ids("blob"), g.ids("tree"), g.ids("commit")
+        ents = []
+        for _ in range(rng.choice([0, 1, 1, 2, 2, 3, 4])):
+            k = rng.random()
+            if k < 0.5 or not trees:
+                if not blobs or rng.random() < 0.3:
+                    blobs.append(new_blob())
+                ents.append((rng.choice([M_FILE, M_FILE, M_EXEC, M_LINK]), rng.choice(blobs)))
+            elif k < 0.85:
+                ents.append((M_DIR, rng.choice(trees)))
+            else:
+                tgt = rng.choice(commits) if commits and rng.random() < 0.6 else g.new_absent()
+                ents.append((M_GITLINK, tgt))
+        key = tuple(ents)
+        if key in trees_seen:
+            ents.append((M_FILE, new_blob()))
+            key = tuple(ents)
+        trees_seen.add(key)
+        return g.add(("tree", ents))
+
+    def new_commit():
+        commits, trees = g.ids("commit"), g.ids("tree")
+        r = rng.random()
+        if commits and r < 0.15:
+            tree = g.objs[rng.choice(commits)][1]          # same root tree as another commit
+        elif trees and r < 0.35:
+            tree = rng.choice(trees)
+        else:
+            tree = new_tree()
+        if not commits or rng.random() < 0.12:
+            parents = []                                      # (another) root
+        else:
+            recent = commits[-6:]
+            k = rng.choice([1, 1, 1, 1, 2, 2, 3])
+            parents = rng.sample(recent, min(k, len(recent)))
+        return g.add(("commit", tree, parents))
+
+    def criss_cross():
+        commits = g.ids("commit")
+        if len(commits) < 2:
+            return
+        a, b = rng.sample(commits[-5:], 2)
+        t1, t2 = new_tree(), new_tree()
+        g.add(("commit", t1, [a, b]))
+        g.add(("commit", t2, [b, a]))
+
+    def new_tag():
+        pool = g.ids("commit") * 3 + g.ids("tag") * 2 + g.ids("tree") + g.ids("blob")
+        if pool:
+            g.add(("tag", rng.choice(pool)))
+
+    new_commit()
+    while len(g.objs) < n:
+        r = rng.random()
+        if r < 0.45:
+            new_commit()
+        elif r < 0.52:
+            criss_cross()
+        elif r < 0.68:
+            new_tag()
+        elif r < 0.85:
+            new_tree()
+        else:
+            new_blob()
+    return g
+
+
+def materialise(g: Graph):
+    """Real dulwich objects for the abstract graph: {id: ShaFile}, {id: hex sha} (absent ids get a sha no
+    object has).  Distinct ids give distinct shas (contents are made unique)."""
+    import hashlib
+    from dulwich.objects import Blob, Commit, Tag, Tree
+    objs, sha = {}, {}
+    for i in g.absent:
+        sha[i] = hashlib.sha1(b"absent %d" % i).hexdigest().encode()
+    for i in sorted(g.objs):
+        o = g.objs[i]
+        if o[0] == "blob":
+            x = Blob.from_string(b"blob %d\n" % i)
+        elif o[0] == "tree":
+            x = Tree()
+            for j, (m, c) in enumerate(o[1]):
+                if c not in sha:      # gitlink to a later object cannot happen; be defensive
+                    sha[c] = hashlib.sha1(b"absent %d" % c).hexdigest().encode()
+                x.add(b"e%02d" % j, m, sha[c])
+            if not o[1]:
+                pass
+        elif o[0] == "commit":
+            x = Commit()
+            x.tree = sha[o[1]]
+            x.parents = [sha[p] for p in o[2]]
+            x.author = x.committer = b"V <v@example.com>"
+            x.author_time = x.commit_time = 1_000_000 + i
+            x.author_timezone = x.commit_timezone = 0
+            x.message = b"commit %d\n" % i
+        else:
+            x = Tag()
+            x.name = b"tag%d" % i
+            t = g.objs.get(o[1])
+            cls = {"blob": Blob, "tree": Tree, "commit": Commit, "tag": Tag}[t[0]]
+            x.object = (cls, sha[o[1]])
+            x.tagger = b"V <v@example.com>"
+            x.tag_time = 1_000_000 + i
+            x.tag_timezone = 0
+            x.message = b"tag %d\n" % i
+        objs[i] = x
+        sha[i] = x.id
+    if len(set(sha.values())) != len(sha):
+        raise core.InfraError("materialise: two abstract objects collapsed to one sha")
+    return objs, sha
+
+
+# ------------------------------------------------------------------------------------------------
+# stream mof.*: model vs real MissingObjectFinder, plus the property's words on the real result
+
+class _OrderedPopSet(set):
+    """A set whose pop() order is chosen by the harness rng: lets the check explore pop orders of
+    `objects_to_send` that CPython's hash order would not produce in this process."""
+
+    def __init__(self, it, rng):
+        super().__init__(it)
+        self._rng = rng
+
+    def pop(self):
+        x = self._rng.choice(sorted(self, key=repr))
+        self.remove(x)
+        return x
+
+
+def real_mof(store, sha, haves, wants, shallow, tagged, rng=None):
+    """Run the real finder; returns ("ok", set of ids, remote_has ids) or ("err", kind)."""
+    from dulwich.object_store import MissingObjectFinder
+    rev = {v: k for k, v in sha.items()}
+    try:
+        f = MissingObjectFinder(store, [sha[h] for h in haves], [sha[w] for w in wants],
+                                shallow={sha[s] for s in shallow},
+                                get_tagged=(lambda: {sha[k]: sha[v] for k, v in tagged.items()}))
+        remote_has = {rev[x] for x in f.get_remote_has()}
+        if rng is not None:
+            f.objects_to_send = _OrderedPopSet(f.objects_to_send, rng)
+        out = [s for s, _ in f]
+    except KeyError:
+        return ("err", "key", None)
+    except AssertionError:
+        return ("err", "type", None)
+    if len(set(out)) != len(out):
+        return ("dup", out, None)
+    return ("ok", {rev[x] for x in out}, remote_has)
+
+
+def gen_mof_case(rng):
+    g = gen_graph(rng)
+    commits, tags, trees, blobs = g.ids("commit"), g.ids("tag"), g.ids("tree"), g.ids("blob")
+    present = set(g.objs)
+    kind = rng.choice(["plain"] * 6 + ["tagged"] * 3 + ["shallow"] * 2 + ["holes"])
+    roots = commits * 3 + tags * 2
+    wants = set(rng.sample(roots, min(len(roots), rng.choice([1, 1, 2, 3]))))
+    if rng.random() < 0.1 and trees:
+        wants.add(rng.choice(trees))
+    if rng.random() < 0.05 and blobs:
+        wants.add(rng.choice(blobs))
+    haves = set()
+    nh = rng.choice([0, 1, 1, 2, 3])
+    wclos = g.closure(wants)
+    for _ in range(nh):
+        r = rng.random()
+        inside = [c for c in commits if c in wclos]
+        if r < 0.5 and inside:
+            haves.add(rng.choice(inside))                       # an ancestor (or the want itself)
+        elif r < 0.8:
+            haves.add(rng.choice(roots))                        # anything: unrelated, ahead, a tag
+        elif r < 0.9:
+            haves.add(g.new_absent())                           # a have the sender has never seen
+        elif trees:
+            haves.add(rng.choice(trees + blobs))
+    shallow, tagged = set(), {}
+    if kind == "shallow" and commits:
+        shallow = set(rng.sample(commits, min(len(commits), rng.choice([1, 2, 3]))))
+    if kind == "tagged":
+        refs = rng.sample(tags, min(len(tags), rng.choice([1, 2, 4]))) if tags else []
+        for t in refs:
+            tagged[g.peel(t)] = t                                # what UploadPackHandler.get_tagged builds
+        if rng.random() < 0.15 and tags:
+            tagged[rng.choice(sorted(g.objs))] = rng.choice(tags)  # arbitrary map (API allows it)
+    if kind == "holes":
+        for x in rng.sample(sorted(present), rng.choice([1, 2])):
+            present.discard(x)
+    return {"kind": kind, "g": g, "present": present, "haves": haves, "wants": wants, "shallow": shallow,
+            "tagged": tagged}
+
+
+def mof_line(case, order):
+    g = case["g"]
+    return " ".join(["c05.mof"] + g.tokens(case["present"]) + [
+        ids_arg("H", case["haves"]), ids_arg("W", case["wants"]), ids_arg("S", case["shallow"]),
+        "X:" + (",".join(f"{k}={v}" for k, v in sorted(case["tagged"].items())) or "-"), f"O:{order}"])
+
+
+def case_json(case):
+    return {"graph": case["g"].to_json(), "present": sorted(case["present"]), "haves": sorted(case["haves"]),
+            "wants": sorted(case["wants"]), "shallow": sorted(case["shallow"]),
+            "tagged": {str(k): v for k, v in case["tagged"].items()}, "kind": case.get("kind", "?")}
+
+
+def case_from_json(d):
+    g = Graph.from_json(d["graph"])
+    return {"g": g, "present": set(d["present"]), "haves": set(d["haves"]), "wants": set(d["wants"]),
+            "shallow": set(d["shallow"]), "tagged": {int(k): v for k, v in d["tagged"].items()},
+            "kind": d.get("kind", "?")}
+
+
+def show_ids(ids):
+    return ",".join(str(i) for i in sorted(ids)) or "-"
+
+
+def mof_oracle(ctx, stream, case, sent):
+    """The property's own words on a real MissingObjectFinder result (sender store closed for the wants):
+    nothing outside the closure of the wants travels except auto-followed tags; together with what the
+    receiver holds (the closures of the haves the sender knows) the wants' closure is complete."""
+    g, present = case["g"], case["present"]
+    wclos = g.closure(case["wants"], shallow=case["shallow"])
+    if not wclos <= present | g.absent and not all(x in present for x in wclos if x in g.objs):
+        return
+    missing_in_sender = [x for x in wclos if x in g.objs and x not in present]
+    if missing_in_sender:
+        return
+    extra = sent - wclos - set(case["tagged"].values())
+    if extra:
+        ctx.oracle_fail(stream, case_json(case), f"objects outside the closure of the wants were selected: {show_ids(extra)}",
+                        "mof-oversend")
+    haves_known = {h for h in case["haves"] if h in present}
+    hclos = g.closure(haves_known, present=present, shallow=case["shallow"])
+    lost = {x for x in wclos if x in g.objs} - sent - hclos
+    if lost:
+        ctx.oracle_fail(stream, case_json(case),
+                        f"objects reachable from the wants are neither selected nor reachable from the haves: {show_ids(lost)}",
+                        "mof-incomplete")
+
+
+def run_mof_cases(ctx, stream, cases, orders=(0, 1, 7)):
+    from dulwich.object_store import MemoryObjectStore
+    lines = []
+    for c in cases:
+        for o in orders:
+            lines.append(mof_line(c, o))
+    outs = ctx.driver.batch(lines)
+    k = len(orders)
+    for idx, c in enumerate(cases):
+        mouts = outs[idx * k:(idx + 1) * k]
+        g = c["g"]
+        objs, sha = materialise(g)
+        store = MemoryObjectStore()
+        for i in c["present"]:
+            store.add_object(objs[i])
+        reals = []
+        for r in (None, ctx.rng, ctx.rng):
+            res = real_mof(store, sha, c["haves"], c["wants"], c["shallow"], c["tagged"], r)
+            reals.append(res)
+        canon = []
+        for res in reals:
+            if res[0] == "ok":
+                canon.append("ok " + show_ids(res[1]))
+            elif res[0] == "err":
+                canon.append("err " + res[1])
+            else:
+                canon.append("dup")
+                ctx.oracle_fail(stream, case_json(c), "MissingObjectFinder yielded an object twice", "mof-dup")
+        nontrivial = reals[0][0] == "ok" and len(reals[0][1]) > 0
+        ctx.count(stream, (tuple(g.tokens(c["present"])), tuple(sorted(c["haves"])), tuple(sorted(c["wants"])),
+                           tuple(sorted(c["shallow"])), tuple(sorted(c["tagged"].items()))), nontrivial,
+                  f"{c['kind']}:{canon[0][:3]}:n{len(g.objs) // 10 * 10}")
+        if len(set(mouts)) != 1:
+            ctx.disagree(stream + ".model-order", case_json(c), mouts, "pop order changes the model's sent set")
+        if len(set(canon)) != 1:
+            # the real finder's result depends on the pop order: a failure of the property only if some
+            # order loses objects — the oracle below decides per order
+            ctx.notes.append(f"{stream}: real MissingObjectFinder result depends on pop order: {canon}")
+            ctx.disagree(stream + ".impl-order", case_json(c), mouts[0], canon)
+        if mouts[0] != canon[0]:
+            ctx.disagree(stream, case_json(c), mouts[0], canon[0])
+        for res in reals:
+            if res[0] == "ok":
+                mof_oracle(ctx, stream, c, res[1])
+        if idx < 2:
+            ctx.sample({"stream": stream, "kind": c["kind"], "objects": len(g.objs), "haves": sorted(c["haves"]),
+                        "wants": sorted(c["wants"]), "model": mouts[0][:120], "impl": canon[0][:120]})
+
+
+def _stream_mof(ctx):
+    rng = ctx.rng
+    cases = [gen_mof_case(rng) for _ in range(ctx.budget(400, mult=8))]
+    run_mof_cases(ctx, "mof", cases)
